@@ -362,7 +362,7 @@ def written_chains(st):
                 for x in ast.walk(t):
                     if isinstance(x, (ast.Name, ast.Attribute, ast.Subscript)) and isinstance(getattr(x, 'ctx', None), (ast.Store, ast.Del)):
                         c = chain(x if not isinstance(x, ast.Subscript) else x.value)
-                        if isinstance(x, ast.Name) and (not isinstance(n, ast.AugAssign) or _numeric(n.value) or x.id in SCALARS[0]):
+                        if isinstance(x, ast.Name) and (not isinstance(n, ast.AugAssign) or x.id in SCALARS[0]):
                             # the name is given another object: nothing happens to the old one (an augmented assignment is
                             # that only for numbers: `buf += chunk` extends a list in place)
                             rebound.add((x.id,))
@@ -2351,7 +2351,7 @@ def _identity_free_uses(func, uses, value=None):
             continue
         if isinstance(p, ast.Compare) and len(p.ops) == 1 and any(isinstance(x, ast.Constant) and x.value is None for x in [p.left] + p.comparators):
             continue        # `x is None` does not tell equal objects apart
-        if isinstance(p, (ast.BinOp, ast.UnaryOp, ast.FormattedValue)):
+        if isinstance(p, (ast.UnaryOp, ast.FormattedValue)) or isinstance(p, ast.BinOp) and not deep:
             continue
         if isinstance(p, ast.AugAssign) and p.value is u and not deep:
             continue        # x += v takes what v holds, not v itself
@@ -2359,7 +2359,7 @@ def _identity_free_uses(func, uses, value=None):
             continue
         if isinstance(p, (ast.For, ast.comprehension)) and p.iter is u and not deep:
             continue
-        if isinstance(p, ast.Call) and any(a is u for a in p.args) and not p.keywords:
+        if isinstance(p, ast.Call) and any(a is u for a in p.args) and not p.keywords and not (deep and not (isinstance(p.func, ast.Name) and p.func.id in ('len', 'bool', 'isinstance', 'repr', 'str'))):
             if isinstance(p.func, ast.Name) and p.func.id in _NONRETAINING_FUNCS and p.func.id not in SHADOWED[0]:
                 continue
             if isinstance(p.func, ast.Attribute) and p.func.attr in _NONRETAINING_METHODS and (builtin_only(p.func.attr) or _stdlib_receiver(p.func.value)):
@@ -2441,7 +2441,7 @@ def inline_temps(func):
                             # ... and nothing that can fail is evaluated in that statement before it
                             anc = {id(y) for x in hdr if any(z is fu for z in ast.walk(x)) for y in [x]}
                             for x in hdr[:fpos]:
-                                if id(x) not in anc and (isinstance(x, ast.Subscript) and not isinstance(x.slice, ast.Slice) or isinstance(x, (ast.Call, ast.BinOp)) and may_raise(x)):
+                                if id(x) not in anc and (isinstance(x, ast.Subscript) and not isinstance(x.slice, ast.Slice) or isinstance(x, (ast.Call, ast.BinOp, ast.Attribute, ast.FormattedValue)) and may_raise(x)):
                                     ok = False
                 if isinstance(st.value, ast.Name) and ok:
                     # another name for the same object: only a rebinding of either name in between matters (what is done to
@@ -3252,6 +3252,8 @@ def _touches_test(target, c):
     """the target is a field of an object that the test mentions as a whole (`win.end = ..` against `not win`, `len(self.buf)`,
     `rec in self.seen`, `a == b`): the object may answer those through the field"""
     parts = target.split('.')
+    if parts[0].strip(MARK) == 'self' and len(parts) > 1 and _re.search(r'(?<![\w.' + MARK + r'])self(?![\w.' + MARK + r'])', c):
+        return True         # len(self), not self, self == other, self in reg: the object answers through its fields
     lo = 2 if parts[0].strip(MARK) == 'self' else 1
     for k in range(lo, len(parts)):
         pre = '.'.join(parts[:k])
@@ -3404,7 +3406,8 @@ def seq(stmts, k, budget):
             # (an override that can fail would leave the default in place in one spelling and the old value in the other)
             return bool(br) and br[0][0] == 'assign' and br[0][1] == (tgt,) and root not in br[0][2] and _effect_free_text(br[0][2]) and '[' not in br[0][2] \
                 and not any(h in br[0][2] for h in ('(Div ', '(FloorDiv ', '(Mod ', '(LShift ', '(RShift ', '(Pow ')) and not _aliased_in(tgt, br[0][2]) \
-                and not _re.search(MARK + r'\w+' + MARK + r'\.', br[0][2])
+                and not _re.search(MARK + r'\w+' + MARK + r'\.', br[0][2]) \
+                and not any(_re.search(r'(?<![\w.' + MARK + r'])' + _re.escape(nm) + r'\.', br[0][2]) for nm in NONE_TESTED[0]) and not ATTR_ERRORS_CAUGHT[0]
         if tgt not in c and c not in _RAISING_ATOMS and not _through_property(tgt, c) and not _aliased_in(tgt, c) and not _touches_test(tgt, c) \
                 and overwrites(then) != overwrites(other):
             node = ('assign', (tgt,), cx(st.value))
@@ -3647,7 +3650,8 @@ def _cstmt(st, budget):
     if isinstance(st, (ast.FunctionDef, ast.AsyncFunctionDef)):
         # nested functions are compared as written - unless they are closed (mention no name the enclosing function binds):
         # then their own canonical text serves
-        if isinstance(st, ast.FunctionDef) and not (_helper_free_names(st) & _OUTER_BOUND[0]) and not st.decorator_list:
+        if isinstance(st, ast.FunctionDef) and not (_helper_free_names(st) & _OUTER_BOUND[0]) and not st.decorator_list and st.returns is None \
+                and not any(a.annotation is not None for a in ast.walk(st.args) if isinstance(a, ast.arg)) and not st.args.defaults and not st.args.kw_defaults:
             ob = _OUTER_BOUND[0]
             try:
                 inner = canonical(st, None, None, (), '', None, None, ctx=_CTX[0])
@@ -4256,20 +4260,35 @@ def canonical(func, helpers=None, consts=None, sized=None, cls_name=None, props=
         for n in ast.walk(func):
             if isinstance(n, ast.Lambda):
                 LAMBDA_WRITES[0] = frozenset()
-                _lw |= written_chains(ast.Expr(value=n.body))
+                _sa = ALIASES[0]
+                ALIASES[0] = tuple(((a_.arg,), c_) for a_, d_ in zip(n.args.args[len(n.args.args) - len(n.args.defaults):], n.args.defaults) for c_ in _alias_sources(d_))
+                try:
+                    _lw |= {c for c in _with_aliases(written_chains(ast.Expr(value=n.body))) if c[0] not in {a_.arg for a_ in n.args.args}}
+                finally:
+                    ALIASES[0] = _sa
             elif n is not func and isinstance(n, ast.FunctionDef):
                 LAMBDA_WRITES[0] = frozenset()
                 _ct = {id(x) for c_ in ast.walk(n) if isinstance(c_, _COMPS) for g_ in c_.generators for x in ast.walk(g_.target)}
-                own = set(_params(n)) | {x.id for x in ast.walk(n) if isinstance(x, ast.Name) and isinstance(x.ctx, (ast.Store, ast.Del)) and id(x) not in _ct}
-                for b_ in n.body:
-                    _lw |= {c for c in written_chains(b_) if c[0] not in own}
+                _inner = {x.id for m_ in ast.walk(n) if m_ is not n and isinstance(m_, (ast.FunctionDef, ast.Lambda)) for x in ast.walk(m_) if isinstance(x, ast.Name) and isinstance(x.ctx, ast.Store)}
+                own = set(_params(n)) | {x.id for x in ast.walk(n) if isinstance(x, ast.Name) and isinstance(x.ctx, (ast.Store, ast.Del)) and id(x) not in _ct and x.id not in _inner}
+                # names of the nested function that are other names for outer objects: local aliases and default arguments
+                _sa = ALIASES[0]
+                _dflt = tuple(((a_.arg,), c_) for a_, d_ in zip(n.args.args[len(n.args.args) - len(n.args.defaults):], n.args.defaults) for c_ in _alias_sources(d_))
+                ALIASES[0] = tuple(function_aliases(n)) + _dflt
+                try:
+                    for b_ in n.body:
+                        _lw |= {c for c in _with_aliases(written_chains(b_)) if c[0] not in own}
+                finally:
+                    ALIASES[0] = _sa
                 if any(isinstance(x, (ast.Yield, ast.YieldFrom)) for x in ast.walk(n)):
                     _lazy = True        # a generator function: its body runs when the result is iterated, not when it is called
             elif isinstance(n, ast.GeneratorExp):
                 LAMBDA_WRITES[0] = frozenset()
-                for x in [n.elt] + [i_ for g_ in n.generators for i_ in g_.ifs]:
-                    _lw |= written_chains(ast.Expr(value=x))
-                _lazy = _lazy or bool(written_chains(ast.Expr(value=n.elt)))
+                _gw = set()
+                for x in [n.elt] + [i_ for g_ in n.generators for i_ in g_.ifs] + [g_.iter for g_ in n.generators[1:]]:
+                    _gw |= written_chains(ast.Expr(value=x))
+                _lw |= _gw
+                _lazy = _lazy or bool(_gw)
             elif isinstance(n, ast.Call) and isinstance(n.func, ast.Name) and n.func.id in ('map', 'filter') and n.args and isinstance(n.args[0], ast.Lambda):
                 _lazy = True
         LAMBDA_WRITES[0] = frozenset(_lw)
